@@ -91,5 +91,9 @@ def history(rng):
 def run(chk, replay=None):
     n = 60 if chk.tier == "quick" else 600
     extra = [(history(chk.rng), None, "history") for _ in range(n)] if replay is None else []
+    if replay is None:
+        # every object starts from its own copy of the type's defaults (numbers included) and is shared, never copied, afterwards
+        from props import c08
+        extra += [(c08.object_history(chk.rng), None, "object-history") for _ in range(25 if chk.tier == "quick" else 300)]
     semprop.run_property(chk, "C07", "c07", PROFILES, 80, 900, replay=replay, extra_programs=extra,
                          what="copy / sharing semantics differ from the documented behaviour")
